@@ -54,7 +54,16 @@ func c12NewFixture() *c12Fixture {
 }
 
 // challenge menu: 0 = (mask{0,1}, m1), 1 = identical to 0 but separately built,
-// 2 = (mask{0,1}, m2), 3 = (mask{0,1,2}, m1)
+// 2 = (mask{0,1}, m2), 3 = (mask{0,1,2}, m1), 4 = as 0 (same commitments, mask
+// and message) but over a different signer key vector
+func (f *c12Fixture) publics(id int) []*Key {
+	if id != 4 {
+		return f.pubs
+	}
+	alt := c12Key("alt-signer-1").Public()
+	return []*Key{f.pubs[0], &alt, f.pubs[2]}
+}
+
 func (f *c12Fixture) challenge(n *CosiNonce, id int) (*CosiSignature, Hash) {
 	pub := n.Public()
 	cm := map[int]*Key{0: &pub, 1: f.others[0]}
@@ -161,18 +170,18 @@ func c12Scenarios(c *verifmc.Check) []c12Scenario {
 	var out []c12Scenario
 	b2 := verifmc.Pick(c, 2, 4)
 	// two threads, one call each: all 16 assignments
-	for a := 0; a < 4; a++ {
-		for b := 0; b < 4; b++ {
+	for a := 0; a < 5; a++ {
+		for b := 0; b < 5; b++ {
 			out = append(out, c12Scenario{fmt.Sprintf("2x1[%d|%d]", a, b), [][]int{{a}, {b}}, 1, b2})
 		}
 	}
 	// two threads, two calls each
-	menu := [][2][2]int{{{0, 2}, {2, 0}}, {{0, 0}, {2, 2}}, {{0, 1}, {1, 2}}, {{0, 3}, {3, 0}}, {{2, 1}, {0, 3}}, {{0, 2}, {1, 3}}}
+	menu := [][2][2]int{{{0, 2}, {2, 0}}, {{0, 0}, {2, 2}}, {{0, 1}, {1, 2}}, {{0, 3}, {3, 0}}, {{2, 1}, {0, 3}}, {{0, 2}, {1, 3}}, {{0, 4}, {4, 0}}, {{4, 1}, {2, 4}}}
 	for _, m := range menu {
 		out = append(out, c12Scenario{fmt.Sprintf("2x2[%d%d|%d%d]", m[0][0], m[0][1], m[1][0], m[1][1]), [][]int{{m[0][0], m[0][1]}, {m[1][0], m[1][1]}}, 0, verifmc.Pick(c, 2, 3)})
 	}
 	// three threads, one call each: all assignments over {0,1,2} quick / {0,1,2,3} thorough
-	k := verifmc.Pick(c, 3, 4)
+	k := verifmc.Pick(c, 3, 5)
 	for a := 0; a < k; a++ {
 		for b := 0; b < k; b++ {
 			for d := 0; d < k; d++ {
@@ -186,7 +195,7 @@ func c12Scenarios(c *verifmc.Check) []c12Scenario {
 func TestMC_C12(t *testing.T) {
 	c := verifmc.Start(t, "C12", "model_checking")
 	defer c.Finish()
-	c.SetRule("for every scenario (assignment of the 4-challenge menu {c1, c1 rebuilt, other message, other mask} to the calls of 2-3 goroutines, one of them using a copy of the handle struct) every interleaving with at most B preemptions, scheduling points at the nonce mutex and before every top-level statement of respond(); an execution is distinct by (scenario, observed result pattern)")
+	c.SetRule("for every scenario (assignment of the 5-challenge menu {c1, c1 rebuilt, other message, other mask, other signer key vector} to the calls of 2-3 goroutines, one of them using a copy of the handle struct) every interleaving with at most B preemptions, scheduling points at the nonce mutex and before every top-level statement of respond(); an execution is distinct by (scenario, observed result pattern)")
 	c.Assume("scheduling points: vsync mutex Lock + a yield before each top-level statement of (*nonce).respond; code between two points runs atomically (data races are the -race pass's subject: TestMCRace_C12)")
 	f := c12NewFixture()
 	scen := c12Scenarios(c)
@@ -213,14 +222,14 @@ func TestMC_C12(t *testing.T) {
 				s.Go(fmt.Sprint("t", ti), func() {
 					for _, call := range mine {
 						sig, msg := f.challenge(h, call.ch)
-						x, err := sig.Challenge(f.pubs, msg)
+						x, err := sig.Challenge(f.publics(call.ch), msg)
 						if err != nil {
 							panic(err)
 						}
 						copy(call.chal[:], x.Bytes())
-						call.resp, call.err = h.Response(sig, &f.priv[0], f.pubs, msg)
+						call.resp, call.err = h.Response(sig, &f.priv[0], f.publics(call.ch), msg)
 						if call.err == nil && call.resp != nil {
-							if verr := sig.VerifyResponse(f.pubs, 0, call.resp, msg); verr != nil {
+							if verr := sig.VerifyResponse(f.publics(call.ch), 0, call.resp, msg); verr != nil {
 								call.err = fmt.Errorf("returned response does not verify: %w", verr)
 							}
 						}
